@@ -199,6 +199,13 @@ class SimPath(_Base):
         fs.dirty.discard(str(self))
         return r
 
+    def stat(self, *a, **k):
+        # a scheduling point only (pathlib calls it internally as well, so it is not a fault-injection point)
+        s = CTX.s
+        if s is not None and not (CTX.fs is not None and CTX.fs.crashed):
+            s.yield_()
+        return _Base.stat(self, *a, **k)
+
     def unlink(self, missing_ok=False):
         _guard('unlink', self)
         r = _Base.unlink(self, missing_ok=missing_ok)
